@@ -379,7 +379,7 @@ theorem ver_step {H : Bytes → Bytes} {s : St} (hI : SInv s) {h : Nat} {x : HIn
     · exact ⟨x, hl, rfl, rfl⟩
     · exact ⟨y, hy', rfl, rfl⟩
   · intro k y hk hne
-    exact same_of_eq (H := H) (s := s) rfl ((hlive k y).mpr (Or.inr ⟨hne, hk⟩)) none
+    exact ⟨(hlive k y).mpr (Or.inr ⟨hne, hk⟩), rfl, fun _ _ _ _ => Iff.rfl⟩
 
 theorem drop_step {H : Bytes → Bytes} {s : St} (hI : SInv s) {h : Nat} {x : HInfo} (hl : Live s h x) :
     SInv { s with hs := setAt s.hs h { x with live := false } } ∧
@@ -404,6 +404,6 @@ theorem drop_step {H : Bytes → Bytes} {s : St} (hI : SInv s) {h : Nat} {x : HI
   · intro i y hy
     exact ⟨y, ((hlive i y).mp hy).2, rfl, rfl⟩
   · intro k y hk hne
-    exact same_of_eq (H := H) (s := s) rfl ((hlive k y).mpr ⟨hne, hk⟩) none
+    exact ⟨(hlive k y).mpr ⟨hne, hk⟩, rfl, fun _ _ _ _ => Iff.rfl⟩
 
 end Gossamer.C03
